@@ -2,7 +2,20 @@ module verifharness
 
 go 1.21.1
 
-require github.com/safing/portbase v0.0.0
+require (
+	github.com/fxamacker/cbor/v2 v2.5.0
+	github.com/ghodss/yaml v1.0.0
+	github.com/safing/portbase v0.0.0
+	github.com/vmihailenco/msgpack/v5 v5.4.1
+)
+
+require (
+	github.com/gofrs/uuid v4.4.0+incompatible // indirect
+	github.com/tevino/abool v1.2.0 // indirect
+	github.com/vmihailenco/tagparser/v2 v2.0.0 // indirect
+	github.com/x448/float16 v0.8.4 // indirect
+	gopkg.in/yaml.v2 v2.4.0 // indirect
+)
 
 require (
 	github.com/armon/go-radix v1.0.0 // indirect
